@@ -259,6 +259,30 @@ theorem produce_marshals_exactly (c : Case) (hd : c.dir = .produce) (hc : c.code
 
 example : ({ sampleProduce with kind := .bin, flag := 3 } : Case).srcClass = .marshal := by decide
 
+/-- A value that is an `error` AND has other text methods (`fmt.Stringer`, and for the byte-stream
+codec `encoding.TextMarshaler`): what is written is exactly its `Error()` text — `"E:"` followed by the
+content in the harness's convention, where `String()` would give `"S:"…` and `MarshalText` the bare
+content — whenever no method of higher rank applies (`MarshalText` for the text codec,
+`MarshalBinary` for the byte-stream codec: these kinds are in the marshal class). -/
+theorem produce_writes_error_text_exactly (c : Case) (hd : c.dir = .produce) (hc : c.codec ≠ .discard)
+    (hs : c.stream ≠ .nil) (hk : c.srcClass = .errText) : WrittenExactly c (ePre ++ c.content) := by
+  have hm : model c = produce c := by unfold model; rw [hd]
+  have h := (specProduce_proj (produce_meets c) hc hs).2.2.2
+  rw [hk] at h
+  have := specWritten_elim (show specWritten c (produce c).obs (ePre ++ c.content) = true from h)
+  unfold WrittenExactly
+  rw [hm]
+  exact ⟨this.2.2.1, this.1, this.2.1, this.2.2.2⟩
+
+example : ({ sampleProduce with kind := .tes, content := [0, 255, 7] } : Case).srcClass = .errText ∧
+    ({ sampleProduce with codec := .text, kind := .tes, content := [0, 255, 7] } : Case).srcClass = .marshal ∧
+    ({ sampleProduce with codec := .text, kind := .es } : Case).srcClass = .errText ∧
+    ({ sampleProduce with codec := .text, kind := .bes } : Case).srcClass = .errText ∧
+    ({ sampleProduce with kind := .bes } : Case).srcClass = .marshal ∧
+    ({ sampleProduce with codec := .text, kind := .ts } : Case).srcClass = .marshal ∧
+    ({ sampleProduce with kind := .ts } : Case).srcClass = .json := by
+  decide
+
 /-- Structs and slices: exactly the bytes of the (external) JSON rendering are written; when the
 rendering fails the call fails with nothing written. -/
 theorem produce_writes_json_exactly (c : Case) (hd : c.dir = .produce) (hc : c.codec ≠ .discard)
@@ -324,7 +348,8 @@ capacity is smaller than what has to be written makes the call fail, with at mos
 theorem write_error_is_returned (c : Case) (hd : c.dir = .produce) (hc : c.codec ≠ .discard)
     (hs : c.stream ≠ .nil) (hl : c.wlie = false) (l : Nat) (hlim : c.wlimit = some l) (p : Bytes)
     (hp : (c.srcClass = .bytes ∧ p = c.content) ∨ (c.srcClass = .marshal ∧ c.flag = 0 ∧ p = c.content) ∨
-          (c.srcClass = .json ∧ c.aux = some p) ∨ (c.srcClass = .stream ∧ p = c.rdata))
+          (c.srcClass = .json ∧ c.aux = some p) ∨ (c.srcClass = .stream ∧ p = c.rdata) ∨
+          (c.srcClass = .errText ∧ p = ePre ++ c.content))
     (hshort : l < p.length) :
     (model c).res ≠ .ok ∧ (model c).obs.wgot.length ≤ l := by
   have hm : model c = produce c := by unfold model; rw [hd]
@@ -332,11 +357,12 @@ theorem write_error_is_returned (c : Case) (hd : c.dir = .produce) (hc : c.codec
   refine ⟨?_, hw⟩
   intro hok
   have hall : (model c).obs.wgot = p := by
-    rcases hp with ⟨hk, rfl⟩ | ⟨hk, hf, rfl⟩ | ⟨hk, ha⟩ | ⟨hk, rfl⟩
+    rcases hp with ⟨hk, rfl⟩ | ⟨hk, hf, rfl⟩ | ⟨hk, ha⟩ | ⟨hk, rfl⟩ | ⟨hk, rfl⟩
     · exact (produce_writes_exactly c hd hc hs hk).2.1 hl hok
     · exact ((produce_marshals_exactly c hd hc hs hk).1 hf).2.1 hl hok
     · exact ((produce_writes_json_exactly c hd hc hs hk).1 p ha).2.1 hl hok
     · exact ((produce_copies_reader c hd hc hs hk).2.1 hl hok).1
+    · exact (produce_writes_error_text_exactly c hd hc hs hk).2.1 hl hok
   rw [hall] at hw
   omega
 
